@@ -25,7 +25,8 @@ with bexp :=
 
 Inductive kind := Pub | Priv.
 Inductive exn := AssertionError | ValueError | ZeroDivisionError | TypeError | RuntimeError
-               | NotImplementedError | IndexError | AttributeError | StopIteration_.
+               | NotImplementedError | IndexError | AttributeError | StopIteration_
+               | ModelError.      (* raised by the model itself, never by pysnark: a wire mentioning an unallocated variable *)
 
 Definition bit_length (v : Z) : Z := if v =? 0 then 0 else Z.log2 (Z.abs v) + 1.
 
@@ -103,6 +104,17 @@ Inductive cmd :=
 | COut (tag : Z) (v : valexp) (l : lc)         (* a plain result observed by the harness *)
 | COutLC (tag : Z) (x : slc).                  (* a LinComb / LinCombBool / LinCombFxp result *)
 
+(* every wire handed to the backend or observed mentions allocated variables only (np public, nw private so far) *)
+Definition var_okb (np nw : Z) (v : var) : bool :=
+  (v =? 0) || ((0 <? v) && (v <=? np)) || ((0 <? - v) && (- v <=? nw)).
+Definition lc_okb (np nw : Z) (l : lc) : bool := forallb (fun vc => var_okb np nw (fst vc)) l.
+Definition cmd_scoped (np nw : Z) (c : cmd) : bool :=
+  match c with
+  | CEmit a b y => lc_okb np nw (wire a) && lc_okb np nw (wire b) && lc_okb np nw (wire y)
+  | COutLC _ x => lc_okb np nw (wire x)
+  | _ => true
+  end.
+
 Section Interp.
 Variable ins : list Z.
 Variable ign0 : bool.
@@ -143,6 +155,7 @@ End Interp.
 End WithP.
 Arguments sval {p} _. Arguments wire {p} _. Arguments oid {p} _. Arguments good {p} _.
 Arguments g_guard {p} _. Arguments g_ignore {p} _. Arguments g_one {p} _.
+Arguments cmd_scoped {p} _ _ _.
 Arguments CAlloc {p} _ _. Arguments CEmit {p} _ _ _. Arguments CRaiseIf {p} _ _ _. Arguments COut {p} _ _ _. Arguments COutLC {p} _ _.
 
 (* ---- digest of a trace: what the correspondence compares (see harness/impl/digest.py) ----
@@ -158,7 +171,7 @@ Definition hcon (p : Z) (c : lc * lc * lc) : Z :=
   hmix (hmix (hmix 17 ((ha + hb) mod hq)) ((ha * hb) mod hq)) (hlc p y).
 Definition exn_code (e : exn) : Z :=
   match e with AssertionError => 1 | ValueError => 2 | ZeroDivisionError => 3 | TypeError => 4 | RuntimeError => 5
-             | NotImplementedError => 6 | IndexError => 7 | AttributeError => 8 | StopIteration_ => 9 end.
+             | NotImplementedError => 6 | IndexError => 7 | AttributeError => 8 | StopIteration_ => 9 | ModelError => 10 end.
 Definition hgobs (p : Z) (g : gobs) : Z :=
   let '(gd, ig, one) := g in
   hmix (hmix (hmix 23 (match gd with Some l => 1 + hlc p l | None => 0 end)) (if ig then 1 else 0)) (hlc p one).
